@@ -368,7 +368,10 @@ def reps_for_segment(seg):
         if conv == 'float':
             return ['1.5', '7', '-7.5', '1e1', 'inf', '-inf', 'Infinity', 'nan', '1e999', ' 1', '1_0', 'x', '.5', '\u0663']
         if conv == 'dt':
-            return ['2020-01-02T03:04:05Z', '2020-01-02T03:04:05+0100', '2020-01-02', '2020-13-01', 'x']
+            # ISO 8601 spellings that the documented strptime() format does not admit: fraction, no seconds, no offset
+            return ['2020-01-02T03:04:05Z', '2020-01-02T03:04:05+0100', '2020-01-02', '2020-13-01', 'x',
+                    '2020-01-02T03:04:05.250Z', '2020-01-02T03:04+01:00', '2020-01-02T03:04:05.250000', '2020-01-02T03:04:05+01:00',
+                    '2020-01-02 03:04:05+01:00', '20200102T030405Z']
         if conv == 'path':
             return ['zz', '']
         return ['zz', '']
